@@ -165,6 +165,65 @@ func diagnoseSpin(pid int, out *bytes.Buffer, done <-chan error, deadline time.D
 	return ""
 }
 
+// diagnoseDeadlock recognises a worker in which the library has parked itself for good: no CPU is used
+// between two samples, no child process is alive (nothing is being waited for outside), and in the
+// goroutine dump that SIGQUIT produces every goroutine with library frames is parked on a channel, a
+// mutex, a wait group or a condition variable. Anything else gives no diagnosis.
+func diagnoseDeadlock(pid int, out *bytes.Buffer, done <-chan error) string {
+	if len(procChildren(pid)) > 0 {
+		return ""
+	}
+	cpu1, _ := procCPU(pid)
+	time.Sleep(1500 * time.Millisecond)
+	cpu2, _ := procCPU(pid)
+	if cpu1 < 0 || cpu2-cpu1 > 2 || len(procChildren(pid)) > 0 {
+		return ""
+	}
+	before := out.Len()
+	_ = syscall.Kill(pid, syscall.SIGQUIT)
+	select {
+	case <-done:
+	case <-time.After(5 * time.Second):
+	}
+	dump := out.String()
+	if before < len(dump) {
+		dump = dump[before:]
+	}
+	parkedStates := []string{"[chan send", "[chan receive", "[select", "[semacquire", "[sync.Mutex.Lock", "[sync.RWMutex", "[sync.WaitGroup.Wait", "[sync.Cond.Wait"}
+	var found string
+	for _, g := range strings.Split(dump, "\n\n") {
+		if !strings.HasPrefix(g, "goroutine ") || !strings.Contains(g, "in-toto-golang/in_toto.") {
+			continue
+		}
+		head := g
+		if i := strings.IndexByte(g, '\n'); i > 0 {
+			head = g[:i]
+		}
+		parked := false
+		for _, st := range parkedStates {
+			if strings.Contains(head, st) {
+				parked = true
+			}
+		}
+		if !parked {
+			return "" // some goroutine of the library is doing (or waiting for) something else
+		}
+		if found == "" {
+			var frames []string
+			for _, l := range strings.Split(g, "\n") {
+				if strings.Contains(l, "in-toto-golang/in_toto.") && len(frames) < 3 {
+					frames = append(frames, strings.TrimSpace(l))
+				}
+			}
+			found = fmt.Sprintf("%s: %s", strings.TrimSpace(head), strings.Join(frames, " <- "))
+		}
+	}
+	if found == "" {
+		return ""
+	}
+	return "the calling process uses no CPU, waits for no child, and every goroutine inside the library is parked (goroutine dump on SIGQUIT): " + found
+}
+
 func firstFields(s string, n int) string {
 	f := strings.Fields(s)
 	if len(f) > n {
@@ -220,6 +279,9 @@ func SuperviseStdio(args []string, dir string, deadline time.Duration, stdio str
 		res.Diagnosis, res.Descendant = diagnoseBlockedWriter(cmd.Process.Pid)
 		if res.Diagnosis == "" {
 			res.Diagnosis = diagnoseSpin(cmd.Process.Pid, &buf, done, deadline)
+		}
+		if res.Diagnosis == "" && stdio == "" {
+			res.Diagnosis = diagnoseDeadlock(cmd.Process.Pid, &buf, done)
 		}
 		_ = syscall.Kill(-cmd.Process.Pid, syscall.SIGKILL)
 		select {
